@@ -149,7 +149,8 @@
 
     /// set_enabled_statuses(mask') from any state satisfying I: afterwards the trigger value is "some changed status is
     /// enabled in mask'"; if it is true every previously registered waiter has been notified and none stays registered -
-    /// i.e. enabling a status that ALREADY changed wakes the waiters (statement of C32).
+    /// i.e. enabling a status that ALREADY changed wakes the waiters (statement of C32); the set of changed statuses itself
+    /// is not altered by a mask change (frame).
     /// @props C32
     /// @kind bounded
     /// @tier quick
@@ -165,6 +166,10 @@
         s.c.set_enabled_statuses(m2.mask());
         let after = s.c.get_trigger_value();
         assert!(after == (m2.enabled(s.a) || m2.enabled(s.b)), "C32: trigger value <=> an enabled status has changed");
+        // frame: which statuses have changed is the entity's communication state, a mask change must not touch it -
+        // otherwise a status that changed while disabled is forgotten and enabling it later never wakes anybody
+        assert!(s.c.status_changes.len() == 2 && s.c.status_changes[0] == s.a && s.c.status_changes[1] == s.b,
+            "C32: set_enabled_statuses leaves the set of changed statuses untouched (a status that changed while disabled still triggers once it is enabled)");
         if after {
             assert!(s.c.registered_notifications.is_empty(), "C32 invariant: no waiter stays registered while the condition is true (enabling an already-changed status)");
             if s.waiters {
